@@ -237,7 +237,7 @@ func specInterrupts() bool {
 //@   assigns everything
 //@   keeps PrintCtx.off, PrintCtx.lvl, PrintCtx.prefix, PrintCtx.inGroupedMode, PrintCtx.noQuoted, PrintCtx.dedupeAttrs
 //@   at call (*Entry).print assert [C14.thru] callee.s == s && callee.stackFrame == stackFrame && callee.lvl == lvl
-//@   at call (*Entry).print assert [C15.bridge-msg] len(callee.msg) == ite(len(buf) > 0 && buf[len(buf)-1] == 10, len(buf)-1, len(buf)) && forall(i, 0, len(callee.msg), callee.msg[i] == buf[i]) && len(callee.kvps) == 0
+//@   at call (*Entry).print assert [C15.bridge-msg] len(callee.msg) == ite(len(old(buf)) > 0 && old(buf)[len(old(buf))-1] == 10, len(old(buf))-1, len(old(buf))) && forall(i, 0, len(callee.msg), callee.msg[i] == old(buf)[i]) && len(callee.kvps) == 0
 //@   ensures [C15.bridge-n] n == old(len(buf)) && isnil(err)
 //@   ensures [C15.bridge-emits] ghost.records >= old(ghost.records) + 1
 
